@@ -522,6 +522,32 @@ fn lazy_rows(case: &Case, doc: &[u8], plan: &ReadPlan) -> Result<(String, bool),
             format!("row {k} was yielded with {delivered} bytes consumed; the first token after the row ends at {} (+{LOOKAHEAD} scanner look-ahead) of {len}", bound - LOOKAHEAD),
         ));
     }
+    // the iterator's other entry points (nth, skip, step_by) must hand out the same rows as next()
+    if ref_rows.len() >= 2 {
+        let fresh = |f: &mut dyn FnMut(&mut dyn Iterator<Item = Result<Dict, std::io::Error>>) -> Vec<Option<String>>| -> Result<Vec<Option<String>>, (String, String)> {
+            let mut cur = Cursor::new(doc);
+            let mut p = libhaystack::encoding::zinc::decode::parser::Parser::make(&mut cur).map_err(|e| ("C11 lazy-rows parser make failed".to_string(), e.to_string()))?;
+            let mut it = libhaystack::encoding::zinc::decode::parse_grid_iterator(&mut p).map_err(|e| ("C11 lazy-rows iterator creation failed".to_string(), e.to_string()))?;
+            Ok(f(&mut it))
+        };
+        let render = |x: Option<Result<Dict, std::io::Error>>| -> Option<String> { x.and_then(|r| r.ok()).map(|d| canon(&Value::make_dict(d))) };
+        let n = ref_rows.len();
+        for k in [1usize, n / 2, n - 1] {
+            let got = fresh(&mut |it| vec![render(it.nth(k))])?;
+            if got[0].as_ref() != Some(&ref_rows[k]) {
+                return Err(("C11 lazy-rows nth(k) differs from the k-th row of plain iteration".into(), format!("k={k} of {n} rows")));
+            }
+            let got = fresh(&mut |it| vec![render(it.skip(k).next())])?;
+            if got[0].as_ref() != Some(&ref_rows[k]) {
+                return Err(("C11 lazy-rows skip(k).next() differs from the k-th row of plain iteration".into(), format!("k={k} of {n} rows")));
+            }
+        }
+        let got = fresh(&mut |it| it.step_by(2).take(n).map(|x| render(Some(x))).collect())?;
+        let want: Vec<Option<String>> = ref_rows.iter().step_by(2).map(|r| Some(r.clone())).collect();
+        if got != want {
+            return Err(("C11 lazy-rows step_by(2) differs from every second row of plain iteration".into(), format!("{} rows vs {}", got.len(), want.len())));
+        }
+    }
     // creating the iterator may consume header, columns and the first token of row 0
     {
         let mut r0 = SimReader::new(doc, plan);
